@@ -19,7 +19,8 @@ where
         usize::try_from(n).map_err(|e| io::Error::new(io::ErrorKind::InvalidData, e))
     })?;
 
-    let mut reference_sequences = Vec::with_capacity(n_ref);
+    // The count is read from the stream and cannot be trusted for preallocation.
+    let mut reference_sequences = Vec::new();
 
     for _ in 0..n_ref {
         let reference_sequence = read_reference_sequence(reader).await?;
